@@ -822,6 +822,44 @@ func genPrograms(prop, out, tier string, rng *rand.Rand) {
 				dtasks = append(dtasks, Task{en, "removed-and-recreated", prog})
 			}
 		}
+		// directed: a family added later and written ONLY through ReadModifyWriteRow (or only through the
+		// mutations of a CheckAndMutateRow) is dropped like any other: its cells are gone, and stay gone
+		// when a family of that name is created again
+		{
+			rmw := func(key string, rules ...Rule) Call {
+				return Call{Req: Req{Kind: "rmw", Table: t, Key: []byte(key), Rules: rules}, Now: 5000}
+			}
+			cam := Call{Req: Req{Kind: "cam", Table: t, Key: []byte("r2"), TM: []Mutation{{Kind: "set", Fam: "late", Q: []byte("c"), Ts: 1000, V: []byte("cam")}}, FM: []Mutation{{Kind: "set", Fam: "late", Q: []byte("c"), Ts: 1000, V: []byte("cam-f")}}}, Now: 5000}
+			for _, en := range engines() {
+				for _, writes := range [][]Call{
+					{rmw("r1", Rule{Kind: "incr", Fam: "late", Q: []byte("n"), Amt: 7}), rmw("r3", Rule{Kind: "append", Fam: "late", Q: []byte("s"), V: []byte("tail")})},
+					{rmw("r1", Rule{Kind: "incr", Fam: "late", Q: []byte("n"), Amt: 7})},
+					{cam},
+					{rmw("r3", Rule{Kind: "append", Fam: "late", Q: []byte("s"), V: []byte("tail")}), cam},
+				} {
+					prog := append(append([]Call{}, fill...), mod(FMod{Kind: "create", ID: "late"}))
+					prog = append(prog, writes...)
+					prog = append(prog, rd, mod(FMod{Kind: "drop", ID: "late"}), rd, mod(FMod{Kind: "create", ID: "late"}), rd,
+						rmw("r1", Rule{Kind: "incr", Fam: "late", Q: []byte("n"), Amt: 1}), rmw("r3", Rule{Kind: "append", Fam: "late", Q: []byte("s"), V: []byte("new")}), rd, get)
+					dtasks = append(dtasks, Task{en, "family-written-by-rmw-only", prog})
+				}
+			}
+		}
+		// directed: tables of several hundred rows (storage engines delete in batches): drop all, drop by a
+		// prefix that matches all / most rows, then write and read again
+		{
+			var entries []Entry
+			for i := 0; i < 600; i++ {
+				entries = append(entries, Entry{Key: []byte(fmt.Sprintf("row-%04d", i)), Muts: []Mutation{{Kind: "set", Fam: "cf", Q: []byte("q"), Ts: 1000, V: []byte{byte('a' + i%26)}}}})
+			}
+			load := Call{Req: Req{Kind: "mutaterows", Table: t, Entries: entries}, Now: 1000}
+			for _, en := range engines() {
+				for _, drop := range []Req{{Kind: "drop", Table: t, All: true}, {Kind: "drop", Table: t, HasPfx: true, Prefix: []byte("row-")}, {Kind: "drop", Table: t, HasPfx: true, Prefix: []byte("row-0")}, {Kind: "drop", Table: t, HasPfx: true, Prefix: []byte("row-02")}} {
+					prog := []Call{create, load, {Req: drop, Now: 1000}, rd, set("row-0300", "cf", "q", "again"), rd, {Req: Req{Kind: "drop", Table: t, All: true}, Now: 1000}, rd}
+					dtasks = append(dtasks, Task{en, "many-rows", prog})
+				}
+			}
+		}
 		if prop == "C14" {
 			// directed: DropRowRange by a prefix at the byte boundaries (ending in 0xff, all 0xff, equal to a
 			// whole key, followed by 0x00) on a table holding the keys around each of them: exactly the keys
